@@ -179,6 +179,11 @@ func runConfig(run *ev.Run, caseIdx int) {
 			typed := cu.Query().Get("user_code")
 			rec, _ := w.Store.DeviceByUserCode(typed)
 			pform := url.Values{"grant_type": {gtDevice}, "device_code": {res.DeviceCode}}
+			if time.Since(t0) > dc.Lifetime-10*time.Second {
+				// stalled process: the code may have expired meanwhile - no verdict depends on that
+				run.Inconclusive("configuration case stalled near the device-code lifetime")
+				continue
+			}
 			before := post(w, router, "/oauth/token", pform, credOf(w, a), "")
 			log = append(log, opLog{"poll", "before approval", lit("/oauth/token", pform, auth, ""), before.Brief()})
 			run.Eval()
